@@ -235,6 +235,15 @@ def inline_resolver(ctx, names):
     return resolve
 
 
+def expr_term(ctx, fi, node, env=None):
+    """term of a single expression node of `fi`, its free names left as ('name', id) leaves (or taken from `env`)"""
+    from .symeval import Evaluator, State
+    ev = Evaluator(ctx.P, fi, mode='join')
+    st = State(env=dict(env or {}))
+    res = ev.ev(node, st)
+    return res[0][0]
+
+
 UNKNOWN = object()
 
 
